@@ -97,3 +97,294 @@ Definition sqrt_table (p : Z) : list (Z * Z * Z) :=
 Definition sqrt_row (p : Z) (l : list Z) : list (Z * Z * Z) :=
   map (fun a => (code (sqrt p a false), code (sqrt p a true), codeb (is_sqr p a))) l.
 Definition legendre_row (p : Z) (l : list Z) : list Z := map (fun a => code (legendre a p)) l.
+
+(** ** Proofs *)
+From Coq Require Import Permutation Zpow_facts.
+
+(** *** Fermat's little theorem, first in any field whose nonzero elements are enumerated *)
+Section FermatAbstract.
+Variable K : FieldT.
+Add Field KF : (fth K).
+
+Lemma fprod_perm (l l' : list K) : Permutation l l' -> fprod l = fprod l'.
+Proof.
+  induction 1 as [|x l l' _ IH|x y l|l l' l'' _ IH1 _ IH2]; simpl.
+  - reflexivity.
+  - rewrite IH. reflexivity.
+  - ring.
+  - rewrite IH1. exact IH2.
+Qed.
+
+Lemma fprod_map_mul (a : K) (l : list K) :
+  fprod (map (fmul K a) l) = fmul K (fpow a (length l)) (fprod l).
+Proof. induction l as [|x l IH]; simpl; [ring|]. rewrite IH. ring. Qed.
+
+Theorem fermat_abstract (units : list K) :
+  NoDup units -> (forall x, In x units <-> x <> f0 K) ->
+  forall a, a <> f0 K -> fpow a (length units) = f1 K.
+Proof.
+  intros Hnd Hall a Ha.
+  assert (Hinj : forall x y, fmul K a x = fmul K a y -> x = y).
+  { intros x y E. apply (fsub_eq0 K). apply (fmul_eq0 K a); [|exact Ha].
+    transitivity (fsub K (fmul K a x) (fmul K a y)); [ring|]. rewrite E. ring. }
+  assert (HP : Permutation (map (fmul K a) units) units).
+  { apply NoDup_Permutation_bis.
+    - apply FinFun.Injective_map_NoDup; [exact Hinj|exact Hnd].
+    - rewrite map_length. apply le_n.
+    - intros y Hy. apply in_map_iff in Hy. destruct Hy as [x [<- Hx]].
+      apply Hall. apply fmul_neq0; [exact Ha|apply Hall, Hx]. }
+  apply fprod_perm in HP. rewrite fprod_map_mul in HP.
+  assert (HN : fprod units <> f0 K) by (apply fprod_neq0; intros x Hx; apply Hall, Hx).
+  apply (fsub_eq0 K). apply (fmul_eq0 K (fprod units)); [|exact HN].
+  transitivity (fsub K (fmul K (fpow a (length units)) (fprod units)) (fprod units)); [ring|].
+  rewrite HP. ring.
+Qed.
+End FermatAbstract.
+
+(** ... then for the integers modulo a prime *)
+Lemma zval_fpow p (Hn : p <> 0) a n : zval (@fpow (ZpOps p) (mkZp p a) n) = (a ^ Z.of_nat n) mod p.
+Proof.
+  induction n as [|n IH].
+  - reflexivity.
+  - cbn [fpow]. change (fmul (ZpOps p)) with (fun x y : Zp p => mkZp p (zval x * zval y)). cbv beta.
+    rewrite zval_mkZp, IH, zval_mkZp. rewrite Nat2Z.inj_succ, Z.pow_succ_r by lia.
+    rewrite <- Z.mul_mod by exact Hn. reflexivity.
+Qed.
+
+Definition zp_units (p : Z) : list (Zp p) := map (zp_of_nat p) (seq 1 (Z.to_nat (p - 1))).
+
+Lemma NoDup_map_inj_in {A B} (f : A -> B) (l : list A) :
+  (forall x y, In x l -> In y l -> f x = f y -> x = y) -> NoDup l -> NoDup (map f l).
+Proof.
+  induction l as [|a l IH]; intros Hinj Hnd; simpl; [constructor|].
+  inversion Hnd as [|? ? Hnotin Hnd']; subst. constructor.
+  - intros Hin. apply in_map_iff in Hin. destruct Hin as [x [E Hx]].
+    assert (x = a) by (apply Hinj; simpl; auto). subst. contradiction.
+  - apply IH; [|exact Hnd']. intros x y Hx Hy. apply Hinj; simpl; auto.
+Qed.
+
+Lemma zp_units_spec p : prime p ->
+  NoDup (zp_units p) /\ (forall x : Zp p, In x (zp_units p) <-> x <> f0 (ZpOps p)) /\
+  length (zp_units p) = Z.to_nat (p - 1).
+Proof.
+  intros Hp. pose proof (prime_ge_2 p Hp) as Hp2. unfold zp_units. repeat split.
+  - apply NoDup_map_inj_in; [|apply seq_NoDup].
+    intros i j Hi Hj. apply in_seq in Hi, Hj. apply zp_of_nat_inj; lia.
+  - intros Hin E. apply in_map_iff in Hin. destruct Hin as [i [Ei Hi]]. apply in_seq in Hi.
+    subst x. apply (f_equal zval) in E. unfold zp_of_nat in E. cbn [f0 ZpOps] in E. rewrite !zval_mkZp in E.
+    rewrite Z.mod_0_l, Z.mod_small in E by lia. lia.
+  - intros Hne. apply in_map_iff. exists (Z.to_nat (zval x)).
+    assert (Hr : 0 <= zval x < p) by (rewrite <- (zval_red p x); apply Z.mod_pos_bound; lia).
+    assert (Hz : zval x <> 0).
+    { intros E. apply Hne. apply Zp_eq. cbn [f0 ZpOps]. rewrite zval_mkZp, Z.mod_0_l by lia. exact E. }
+    split.
+    + apply Zp_eq. unfold zp_of_nat. rewrite zval_mkZp, Z2Nat.id by lia. apply Z.mod_small. lia.
+    + apply in_seq. lia.
+  - rewrite map_length, seq_length. reflexivity.
+Qed.
+
+Theorem fermat p a : prime p -> a mod p <> 0 -> a ^ (p - 1) mod p = 1.
+Proof.
+  intros Hp Ha. pose proof (prime_ge_2 p Hp) as Hp2.
+  destruct (zp_units_spec p Hp) as [Hnd [Hall Hlen]].
+  assert (Hne : mkZp p a <> f0 (ZpOps p)).
+  { intros E. apply (f_equal zval) in E. cbn [f0 ZpOps] in E. rewrite !zval_mkZp in E.
+    rewrite Z.mod_0_l in E by lia. contradiction. }
+  pose proof (fermat_abstract (ZpField p Hp) (zp_units p) Hnd Hall (mkZp p a) Hne) as F.
+  assert (F' : zval (@fpow (ZpOps p) (mkZp p a) (Z.to_nat (p - 1))) = zval (f1 (ZpOps p))).
+  { rewrite <- Hlen. exact (f_equal zval F). }
+  rewrite zval_fpow in F' by lia. rewrite Z2Nat.id in F' by lia. rewrite F'.
+  cbn [f1 ZpOps]. rewrite zval_mkZp. apply Z.mod_1_l. lia.
+Qed.
+
+(** half of Euler's criterion: a nonzero square has a^((p-1)/2) = 1 *)
+Lemma euler_square p a b : prime p -> p <> 2 -> (b * b) mod p = a mod p -> a mod p <> 0 ->
+  a ^ ((p - 1) / 2) mod p = 1.
+Proof.
+  intros Hp H2 Hb Ha. pose proof (prime_ge_2 p Hp) as Hp2.
+  assert (Hodd : p mod 2 = 1).
+  { destruct (Z.eq_dec (p mod 2) 0) as [E|E].
+    - apply Zmod_divide in E; [|lia]. apply prime_div_prime in E; [lia|apply prime_2|exact Hp].
+    - pose proof (Z.mod_pos_bound p 2 ltac:(lia)). lia. }
+  assert (Hh : p - 1 = 2 * ((p - 1) / 2)).
+  { pose proof (Z.div_mod (p - 1) 2 ltac:(lia)) as D.
+    assert ((p - 1) mod 2 = 0).
+    { rewrite Zminus_mod, Hodd. reflexivity. }
+    lia. }
+  assert (Hhn : 0 <= (p - 1) / 2) by (apply Z.div_pos; lia).
+  rewrite Zpower_mod by lia. rewrite <- Hb. rewrite <- Zpower_mod by lia.
+  rewrite Z.pow_mul_l. rewrite <- Z.pow_add_r by lia.
+  replace ((p - 1) / 2 + (p - 1) / 2) with (p - 1) by lia.
+  apply fermat; [exact Hp|].
+  intros E. apply Ha. rewrite <- Hb. rewrite <- Z.mul_mod_idemp_l, E by lia. reflexivity.
+Qed.
+
+(** *** the branches of _sqrt *)
+Lemma powmod_nonneg x y m : m <> 0 -> 0 <= y -> powmod x y m = Ok (x ^ y mod m).
+Proof.
+  intros Hm Hy. destruct y as [|e|e]; [reflexivity| |lia].
+  unfold powmod. rewrite pow_pos_spec by exact Hm. reflexivity.
+Qed.
+
+Theorem sqrt_zero p : sqrt p 0 false = Ok (0 mod p) /\ sqrt p 0 true = Err ZeroDiv.
+Proof. split; reflexivity. Qed.
+
+Theorem sqrt_p2 a : 0 <= a < 2 -> exists r, sqrt 2 a false = Ok r /\ mul 2 r (El r) = a.
+Proof. intros H. assert (a = 0 \/ a = 1) as [-> | ->] by lia; eexists; split; reflexivity. Qed.
+
+Section P3mod4.
+Variable p : Z.
+Hypothesis Hp : prime p.
+Hypothesis H34 : p mod 4 = 3.
+Let Hp2 := prime_ge_2 p Hp.
+
+Lemma land3 : Z.land p 3 = 3.
+Proof. change 3 with (Z.ones 2) at 1. rewrite Z.land_ones by lia. exact H34. Qed.
+
+Lemma p_split : exists k, p = 4 * k + 3 /\ 0 <= k.
+Proof.
+  exists (p / 4). pose proof (Z.div_mod p 4 ltac:(lia)). split; [lia|]. apply Z.div_pos; lia.
+Qed.
+
+Lemma sqrt_branch a INV : 0 < a < p ->
+  sqrt p a INV = Ok (a ^ (if INV then (p * 3 - 5) / 4 else (p + 1) / 4) mod p).
+Proof.
+  intros Ha. unfold sqrt, sqrt_.
+  rewrite (proj2 (Z.eqb_neq a 0)) by lia.
+  assert (p <> 2) by (intros ->; discriminate H34).
+  rewrite (proj2 (Z.eqb_neq p 2)) by assumption.
+  rewrite land3, Z.eqb_refl. rewrite !Z.shiftr_div_pow2 by lia. change (2 ^ 2) with 4.
+  destruct p_split as [k [Ek Hk]].
+  rewrite powmod_nonneg; [|lia|destruct INV; apply Z.div_pos; lia].
+  cbn [bind]. unfold mk. rewrite Z.mod_mod by lia. reflexivity.
+Qed.
+
+(** the root: for every nonzero square a, sqrt(a)^2 = a *)
+Theorem sqrt_p3mod4 a : 0 < a < p -> (exists b, (b * b) mod p = a) ->
+  exists r, sqrt p a false = Ok r /\ 0 <= r < p /\ mul p r (El r) = a.
+Proof.
+  intros Ha [b Hb]. rewrite (sqrt_branch a false Ha). eexists; split; [reflexivity|].
+  split; [apply Z.mod_pos_bound; lia|].
+  unfold mul, mk; cbn [raw]. rewrite <- Z.mul_mod by lia.
+  destruct p_split as [k [Ek Hk]].
+  assert (E4 : (p + 1) / 4 = k + 1).
+  { symmetry. apply Z.div_unique with 0; lia. }
+  assert (E2 : (p - 1) / 2 = 2 * k + 1).
+  { symmetry. apply Z.div_unique with 0; lia. }
+  rewrite E4. rewrite <- Z.pow_add_r by lia.
+  replace (k + 1 + (k + 1)) with (1 + (2 * k + 1)) by ring.
+  rewrite Z.pow_add_r, Z.pow_1_r by lia.
+  rewrite <- Z.mul_mod_idemp_r by lia. rewrite <- E2.
+  rewrite (euler_square p a b Hp).
+  - rewrite Z.mul_1_r. apply Z.mod_small. lia.
+  - intros ->. discriminate H34.
+  - rewrite Hb. symmetry. apply Z.mod_small. lia.
+  - rewrite Z.mod_small by lia. lia.
+Qed.
+
+(** the INV variant is the inverse of that root (for every nonzero a) *)
+Theorem sqrt_inv_p3mod4 a : 0 < a < p ->
+  exists r ri, sqrt p a false = Ok r /\ sqrt p a true = Ok ri /\ 0 <= ri < p /\ mul p ri (El r) = 1.
+Proof.
+  intros Ha. rewrite (sqrt_branch a false Ha), (sqrt_branch a true Ha).
+  eexists; eexists; split; [reflexivity|]. split; [reflexivity|].
+  split; [apply Z.mod_pos_bound; lia|].
+  unfold mul, mk; cbn [raw]. rewrite <- Z.mul_mod by lia.
+  destruct p_split as [k [Ek Hk]].
+  assert (E4 : (p + 1) / 4 = k + 1) by (symmetry; apply Z.div_unique with 0; lia).
+  assert (E5 : (p * 3 - 5) / 4 = 3 * k + 1) by (symmetry; apply Z.div_unique with 0; lia).
+  rewrite E4, E5. rewrite <- Z.pow_add_r by lia.
+  replace (3 * k + 1 + (k + 1)) with (p - 1) by lia.
+  apply fermat; [exact Hp|]. rewrite Z.mod_small by lia. lia.
+Qed.
+End P3mod4.
+
+(** *** bounded-exhaustive check of the whole of _sqrt / _is_sqr (incl. the Cipolla branch and jacobi) *)
+Definition primes200 : list Z :=
+  [2; 3; 5; 7; 11; 13; 17; 19; 23; 29; 31; 37; 41; 43; 47; 53; 59; 61; 67; 71; 73; 79; 83; 89; 97; 101; 103; 107;
+   109; 113; 127; 131; 137; 139; 149; 151; 157; 163; 167; 173; 179; 181; 191; 193; 197; 199].
+
+Definition is_square_bf (p a : Z) : bool := existsb (fun b => (b * b) mod p =? a) (zrange p).
+
+Definition check_elem (p a : Z) : bool :=
+  let sq := is_square_bf p a in
+  match is_sqr p a with Ok s => Bool.eqb s sq | Err _ => false end &&
+  (if sq then
+     match sqrt p a false with
+     | Ok r => (0 <=? r) && (r <? p) && ((r * r) mod p =? a) &&
+               match sqrt p a true with
+               | Ok ri => negb (a =? 0) && (0 <=? ri) && (ri <? p) && ((ri * r) mod p =? 1)
+               | Err ZeroDiv => a =? 0
+               | Err _ => false
+               end
+     | Err _ => false
+     end
+   else true).
+
+Definition check_all (ps : list Z) : bool := forallb (fun p => forallb (check_elem p) (zrange p)) ps.
+
+Lemma in_zrange n a : 0 <= a < n -> In a (zrange n).
+Proof.
+  intros H. unfold zrange. apply in_map_iff. exists (Z.to_nat a). split; [lia|]. apply in_seq. lia.
+Qed.
+
+Lemma is_square_bf_spec p a : 2 <= p -> 0 <= a < p ->
+  (is_square_bf p a = true <-> exists b, (b * b) mod p = a).
+Proof.
+  intros Hp Ha. unfold is_square_bf. rewrite existsb_exists. split.
+  - intros [b [_ E]]. exists b. apply Z.eqb_eq, E.
+  - intros [b E]. exists (b mod p). split; [apply in_zrange, Z.mod_pos_bound; lia|].
+    apply Z.eqb_eq. rewrite <- Z.mul_mod by lia. exact E.
+Qed.
+
+Lemma check_all_elem ps p a : check_all ps = true -> In p ps -> In a (zrange p) -> check_elem p a = true.
+Proof.
+  unfold check_all. intros C Hp Ha. rewrite forallb_forall in C. specialize (C p Hp).
+  rewrite forallb_forall in C. exact (C a Ha).
+Qed.
+
+Lemma check_all_200 : check_all primes200 = true.
+Proof. vm_compute. reflexivity. Qed.
+
+Lemma primes200_prime p : In p primes200 -> prime p.
+Proof.
+  intros H. apply is_prime_small_correct.
+  assert (F : forallb is_prime_small primes200 = true) by (vm_compute; reflexivity).
+  rewrite forallb_forall in F. apply F, H.
+Qed.
+
+(** for every prime p < 200 (the 46 listed) and every element a:
+    is_sqr(a) holds exactly for the squares; for squares sqrt(a)^2 = a; for nonzero squares sqrt(a, INV) is the
+    inverse of sqrt(a); sqrt(0, INV) raises ZeroDivisionError *)
+Theorem sqrt_is_sqr_bounded p a : In p primes200 -> 0 <= a < p ->
+  (exists s, is_sqr p a = Ok s /\ (s = true <-> exists b, (b * b) mod p = a)) /\
+  ((exists b, (b * b) mod p = a) ->
+     (exists r, sqrt p a false = Ok r /\ 0 <= r < p /\ (r * r) mod p = a /\
+        (a <> 0 -> exists ri, sqrt p a true = Ok ri /\ 0 <= ri < p /\ (ri * r) mod p = 1)) /\
+     (a = 0 -> sqrt p a true = Err ZeroDiv)).
+Proof.
+  intros Hp Ha.
+  assert (Hp2 : 2 <= p) by (apply prime_ge_2, primes200_prime, Hp).
+  pose proof (check_all_elem primes200 p a check_all_200 Hp (in_zrange p a Ha)) as C.
+  unfold check_elem in C. apply andb_true_iff in C. destruct C as [C1 C2].
+  pose proof (is_square_bf_spec p a Hp2 Ha) as SQ.
+  split.
+  - destruct (is_sqr p a) as [s|e]; [|discriminate]. exists s. split; [reflexivity|].
+    apply eqb_prop in C1. subst s. exact SQ.
+  - intros Hsq. apply SQ in Hsq. rewrite Hsq in C2.
+    destruct (sqrt p a false) as [r|e]; [|discriminate].
+    apply andb_true_iff in C2. destruct C2 as [C2 C3].
+    apply andb_true_iff in C2. destruct C2 as [C2 C4].
+    apply andb_true_iff in C2. destruct C2 as [C2 C5].
+    apply Z.leb_le in C2. apply Z.ltb_lt in C5. apply Z.eqb_eq in C4.
+    split.
+    + exists r. split; [reflexivity|]. split; [lia|]. split; [exact C4|].
+      intros Hne. destruct (sqrt p a true) as [ri|[]]; try discriminate.
+      * apply andb_true_iff in C3. destruct C3 as [C3 C6].
+        apply andb_true_iff in C3. destruct C3 as [C3 C7].
+        apply andb_true_iff in C3. destruct C3 as [C3 C8].
+        apply Z.leb_le in C8. apply Z.ltb_lt in C7. apply Z.eqb_eq in C6.
+        exists ri. split; [reflexivity|]. split; [lia|exact C6].
+      * apply Z.eqb_eq in C3. contradiction.
+    + intros ->. apply sqrt_zero.
+Qed.
